@@ -421,16 +421,25 @@ def run_sens(case):
     if arch_refs:
         env.read += [bgm.Obj('rx', 'u', 3, 'm0', 'arrelem'), bgm.Obj('ry', 'bit', None, 'y', 'arrelem')] * 2
     env.wsig = outs
+    # a signal that the un-clocked process itself reads *and* drives (in either order): it belongs in the list as well
+    own = rnd.random() < 0.6
+    if own:
+        st = bgm.Obj('st', 'u', 3, 'st', 'sig')
+        env.read = env.read + [st, st]
+        env.wsig = outs + [st]
+        cnt['unclocked_with_own_signal'] += 1
     bg = bgm.BodyGen(rnd, env)
     body = bg.seq_body(rnd.choice([3, 5, 8]), 2)
     if not body:
         body = [('sig', 'self.o0', 's0')]
+    if own and rnd.random() < 0.5:
+        body = [('sig', 'self.o0', 'st')] + body + [('sig', 'st', 'self.x')]
     cname = f"SN{rnd.randrange(1 << 30)}"
     L = [pg.HEADER, f"class {cname}(Entity):", "    clk = Port.input(Bit)", "    a = Port.input(Bit)", "    b = Port.input(Bit)",
          "    d = Port.input(Unsigned[2])", "    e = Port.input(Unsigned[2])", "    x = Port.input(Unsigned[3])", "    y = Port.input(BitVector[4])",
          "    o0 = Port.output(Unsigned[3])", "    o1 = Port.output(BitVector[4])", "    o2 = Port.output(Bit)",
          "    def architecture(self):", "        s0 = Signal[Unsigned[3]](name='s0')", "        s1 = Signal[BitVector[4]](name='s1')",
-         "        m0 = Signal[Array[Unsigned[3], 4]](name='m0')",
+         "        m0 = Signal[Array[Unsigned[3], 4]](name='m0')", "        st = Signal[Unsigned[3]](name='st')",
          "        rx = m0[self.e]", "        ry = self.y[self.e]",
          "        @std.sequential(std.Clock(self.clk))", "        def feed():", "            nonlocal s0, s1",
          "            s0 <<= self.x", "            s1 <<= self.y", "            m0[self.d] <<= self.x"]
